@@ -147,8 +147,9 @@ ops::ThdmPoint thdm_point(uint64_t seed)
 // ------------------------------------------------------------------ models
 struct Model {
    gm2calc::MSSMNoFV_onshell* m = nullptr; gm2calc::THDM* t = nullptr; bool via_c = false; ///< allocated by the C interface: freed through it
+   uint64_t obs = 0;   ///< hash of all getters when the owner last constructed / copied / mutated the model: its observable state
    bool empty() const { return !m && !t; }
-   void reset() { if (m) { if (via_c) ops::destroy_c(m); else ops::destroy(m); } if (t) { if (via_c) ops::destroy_c(t); else ops::destroy(t); } m = nullptr; t = nullptr; via_c = false; }
+   void reset() { if (m) { if (via_c) ops::destroy_c(m); else ops::destroy(m); } if (t) { if (via_c) ops::destroy_c(t); else ops::destroy(t); } m = nullptr; t = nullptr; via_c = false; obs = 0; }
 };
 
 struct OpResult { uint64_t bits = 0; std::string exc; bool skipped = false;
@@ -157,17 +158,39 @@ struct OpResult { uint64_t bits = 0; std::string exc; bool skipped = false;
 struct Context { Model slot[NSLOTS]; ~Context() { for (auto& s : slot) s.reset(); } };
 
 Model g_shared[NSHARED];
-gm2calc::SM* g_shared_sm = nullptr; std::string g_shared_sm_bytes; ///< one SM object shared by all tasks (plan line "sharedsm <seed>")
+gm2calc::SM* g_shared_sm = nullptr; gm2calc::SM* g_shared_sm_pristine = nullptr; std::string g_shared_sm_bytes; ///< one SM object shared by all tasks (plan line "sharedsm <seed>")
 struct SharedSnap { std::string bytes; uint64_t getters = 0; std::string text; };
 SharedSnap g_shared_snap[NSHARED];
 
+/// byte image of a model.  The copy is made with plain volatile loads in this (uninstrumented) file and not with
+/// memcpy: it is an observation by the harness, not an access of the program under test, and neither race detector
+/// (the simulator's own, ThreadSanitizer's memcpy interceptor in layer L2) may judge it
+std::string snapshot_bytes(const void* p, size_t n)
+{
+   std::string out(n, '\0');
+   const volatile unsigned char* src = (const volatile unsigned char*)p;
+   for (size_t i = 0; i < n; ++i) out[i] = (char)src[i];
+   return out;
+}
 std::string raw_bytes(const Model& md)
 {
-   if (md.m) return std::string((const char*)md.m, ops::sizeof_mssm());
-   if (md.t) return std::string((const char*)md.t, ops::sizeof_thdm());
+   if (md.m) return snapshot_bytes(md.m, ops::sizeof_mssm());
+   if (md.t) return snapshot_bytes(md.t, ops::sizeof_thdm());
    return "";
 }
 uint64_t getters_of(const Model& md) { return md.m ? ops::getters_mssm(*md.m) : md.t ? ops::getters_thdm(*md.t) : 0; }
+uint64_t g_repr_only_changes = 0;
+/// The byte image of a model differs after a read-only call.  "Leaves the model it is given unchanged" is a statement
+/// about what can be observed (all getters): a change of representation only -- say a synchronised internal statistics
+/// counter -- is counted, not reported; unsynchronised writes to a shared model are the race detector's business.
+bool observably_changed(const Model& md)
+{
+   uint64_t now = 0;
+   try { now = getters_of(md); } catch (...) { return true; }
+   if (now != md.obs) return true;
+   ++g_repr_only_changes;
+   return false;
+}
 
 /// near-duplicate points: the point of a seed with ONE parameter moved by one ulp / 1e-12 / 1e-7 (relative).  A memo with
 /// a coarse or truncated key, or a "same as last time" test with a tolerance, returns the neighbour's value for them.
@@ -346,7 +369,7 @@ OpResult exec_op_inner(Context& c, const std::vector<std::string>& t, std::vecto
       if (t[0] == "mk" && t.size() >= 4) {
          Model& s = c.slot[((sim::iparse(t[1]) % NSLOTS) + NSLOTS) % NSLOTS];
          build_model(s, t[2], (uint64_t)std::strtoull(t[3].c_str(), nullptr, 0), t.size() > 4 ? (int)sim::iparse(t[4]) : 0);
-         r.bits = getters_of(s);
+         r.bits = getters_of(s); s.obs = r.bits;
       } else if (t[0] == "cp" && t.size() >= 4) {
          Model& dst = c.slot[((sim::iparse(t[1]) % NSLOTS) + NSLOTS) % NSLOTS];
          Model* src = model_ref(2);
@@ -354,11 +377,11 @@ OpResult exec_op_inner(Context& c, const std::vector<std::string>& t, std::vecto
          const std::string before = raw_bytes(*src);
          Model n;
          if (src->m) n.m = ops::copy_mssm(*src->m); else n.t = ops::copy_thdm(*src->t);
-         if (raw_bytes(*src) != before) modified.push_back("copy");
+         if (raw_bytes(*src) != before && observably_changed(*src)) modified.push_back("copy");
          // a copy is a model in the same state: all getters and the printed text agree with the source
          const uint64_t gs = getters_of(*src), gn = getters_of(n);
          if (gs != gn || (n.m ? ops::print_mssm(*n.m) != ops::print_mssm(*src->m) : ops::print_thdm(*n.t) != ops::print_thdm(*src->t))) modified.push_back("copy-differs:copy_state");
-         dst.reset(); dst = n;
+         dst.reset(); dst = n; dst.obs = gn;
          r.bits = gn;
       } else if (t[0] == "ev" && t.size() >= 4) {
          Model* md = model_ref(2);
@@ -369,7 +392,7 @@ OpResult exec_op_inner(Context& c, const std::vector<std::string>& t, std::vecto
          if (fn < 0) { r.skipped = true; return r; }
          const std::string before = raw_bytes(*md);
          struct Check { const Model* md; const std::string& before; std::vector<std::string>& out; const std::string& name;
-                        ~Check() { if (raw_bytes(*md) != before) out.push_back(name); } } chk{md, before, modified, t[1]};
+                        ~Check() { if (raw_bytes(*md) != before && observably_changed(*md)) out.push_back(name); } } chk{md, before, modified, t[1]};
          r.bits = sim::bits(md->m ? ops::eval_mssm(fn, *md->m) : ops::eval_thdm(fn, *md->t));
          if (g_check_copy) {
             // "returns the bit-identical value ... on any copy of the model"
@@ -393,7 +416,7 @@ OpResult exec_op_inner(Context& c, const std::vector<std::string>& t, std::vecto
          const std::string before = raw_bytes(*md);
          static const std::string nm = "operator<<";
          struct Check { const Model* md; const std::string& before; std::vector<std::string>& out;
-                        ~Check() { if (raw_bytes(*md) != before) out.push_back(nm); } } chk{md, before, modified};
+                        ~Check() { if (raw_bytes(*md) != before && observably_changed(*md)) out.push_back(nm); } } chk{md, before, modified};
          const std::string s = md->m ? ops::print_mssm(*md->m) : ops::print_thdm(*md->t);
          sim::Fnv h; h.str(s); r.bits = h.h;
       } else if (t[0] == "sm" && t.size() >= 2) {
@@ -408,9 +431,9 @@ OpResult exec_op_inner(Context& c, const std::vector<std::string>& t, std::vecto
          if (!same) modified.push_back("history-dependent:sm_getters");
       } else if (t[0] == "evsm") {
          if (!g_shared_sm) { r.skipped = true; return r; }
-         const std::string before((const char*)g_shared_sm, ops::sizeof_sm());
+         const std::string before = snapshot_bytes(g_shared_sm, ops::sizeof_sm());
          r.bits = ops::sm_getters(*g_shared_sm);
-         if (std::string((const char*)g_shared_sm, ops::sizeof_sm()) != before) modified.push_back("shared_sm_getters");
+         if (snapshot_bytes(g_shared_sm, ops::sizeof_sm()) != before) { if (g_shared_sm_pristine && ops::sm_getters(*g_shared_sm_pristine) == r.bits) ++g_repr_only_changes; else modified.push_back("shared_sm_getters"); }
       } else if (t[0] == "ff" && t.size() >= 2) {
          sim::Rng g((uint64_t)std::strtoull(t[1].c_str(), nullptr, 0));
          const double x = g.loguniform(1e-3, 1e3), y = g.chance(0.15) ? x : g.loguniform(1e-3, 1e3), z = g.chance(0.15) ? 1.0 : g.loguniform(1e-3, 1e3);
@@ -424,6 +447,7 @@ OpResult exec_op_inner(Context& c, const std::vector<std::string>& t, std::vecto
          const double u = g.uniform(0, 1);
          try { r.bits = s.m ? ops::mutate_mssm(*s.m, what, u) : ops::mutate_thdm(*s.t, what, u); }
          catch (...) { r.exc = exception_class(); r.bits = getters_of(s); } // the state after a refused recalculation is part of the result
+         s.obs = r.bits;
       } else r.skipped = true;
    } catch (...) {
       r.exc = exception_class();
@@ -600,15 +624,28 @@ RunOut run_plan(const std::vector<std::string>& lines, uint64_t run_index)
    }
    g_prog.set(run_index, 0, "setup");
    if (g_shared_sm) { ops::destroy(g_shared_sm); g_shared_sm = nullptr; }
-   if (plan.shared_sm_seed) { g_shared_sm = ops::make_shared_sm(plan.shared_sm_seed); g_shared_sm_bytes.assign((const char*)g_shared_sm, ops::sizeof_sm()); }
+   if (g_shared_sm_pristine) { ops::destroy(g_shared_sm_pristine); g_shared_sm_pristine = nullptr; }
+   if (plan.shared_sm_seed) { g_shared_sm = ops::make_shared_sm(plan.shared_sm_seed); g_shared_sm_pristine = ops::make_shared_sm(plan.shared_sm_seed); g_shared_sm_bytes = snapshot_bytes(g_shared_sm, ops::sizeof_sm()); }
    // shared models are built by the main thread before any task starts
    for (int k = 0; k < NSHARED; ++k) { g_shared[k].reset(); g_shared_snap[k] = SharedSnap(); }
    for (size_t k = 0; k < plan.shared.size() && k < (size_t)NSHARED; ++k) {
       if (plan.shared[k].first.empty()) continue;
       try { build_model(g_shared[k], plan.shared[k].first, plan.shared[k].second); } catch (...) { g_shared[k].reset(); }
       if (!g_shared[k].empty()) {
-         g_shared_snap[k].bytes = raw_bytes(g_shared[k]); g_shared_snap[k].getters = getters_of(g_shared[k]);
-         g_shared_snap[k].text = g_shared[k].m ? ops::print_mssm(*g_shared[k].m) : ops::print_thdm(*g_shared[k].t);
+         // the reference state comes from a TWIN built from the same recipe: no getter, print or evaluation touches the
+         // shared object itself before the tasks start (a lazily filled internal cache must still be cold then)
+         g_shared_snap[k].bytes = raw_bytes(g_shared[k]);
+         Model twin;
+         try { build_model(twin, plan.shared[k].first, plan.shared[k].second); } catch (...) { twin.reset(); }
+         if (!twin.empty()) {
+            g_shared_snap[k].getters = getters_of(twin);
+            g_shared_snap[k].text = twin.m ? ops::print_mssm(*twin.m) : ops::print_thdm(*twin.t);
+            twin.reset();
+         } else {
+            g_shared_snap[k].getters = getters_of(g_shared[k]);
+            g_shared_snap[k].text = g_shared[k].m ? ops::print_mssm(*g_shared[k].m) : ops::print_thdm(*g_shared[k].t);
+         }
+         g_shared[k].obs = g_shared_snap[k].getters;
       }
    }
    uint64_t total_ops = 0;
@@ -716,11 +753,13 @@ RunOut run_plan(const std::vector<std::string>& lines, uint64_t run_index)
       else { out.sig = "modified:" + w; out.detail = "the model passed to " + w + " changed (byte image differs after the call), task " + std::to_string(i); }
       return out;
    }
-   if (g_shared_sm && std::string((const char*)g_shared_sm, ops::sizeof_sm()) != g_shared_sm_bytes) { out.sig = "modified:shared_sm"; out.detail = "the SM object shared by the tasks differs from its state before the run (byte image)"; return out; }
+   if (g_shared_sm && snapshot_bytes(g_shared_sm, ops::sizeof_sm()) != g_shared_sm_bytes && g_shared_sm_pristine && ops::sm_getters(*g_shared_sm_pristine) == ops::sm_getters(*g_shared_sm)) ++g_repr_only_changes;
+   else if (g_shared_sm && snapshot_bytes(g_shared_sm, ops::sizeof_sm()) != g_shared_sm_bytes) { out.sig = "modified:shared_sm"; out.detail = "the SM object shared by the tasks differs from its state before the run (byte image)"; return out; }
    for (int k = 0; k < NSHARED; ++k) if (!g_shared[k].empty()) {
-      if (raw_bytes(g_shared[k]) != g_shared_snap[k].bytes || getters_of(g_shared[k]) != g_shared_snap[k].getters ||
+      if (raw_bytes(g_shared[k]) != g_shared_snap[k].bytes && getters_of(g_shared[k]) == g_shared_snap[k].getters) ++g_repr_only_changes;
+      if (getters_of(g_shared[k]) != g_shared_snap[k].getters ||
           (g_shared[k].m ? ops::print_mssm(*g_shared[k].m) : ops::print_thdm(*g_shared[k].t)) != g_shared_snap[k].text) {
-         out.sig = "modified:shared_model"; out.detail = "shared model " + std::to_string(k) + " differs from its state before the run (bytes, getters or printed text)"; return out;
+         out.sig = "modified:shared_model"; out.detail = "shared model " + std::to_string(k) + " differs from its state before the run (getters or printed text)"; return out;
       }
    }
    return out;
@@ -746,6 +785,7 @@ int exec_one(const char* planfile, bool trace)
    c.add("mutex_locks", o.sim.mutex_locks); c.add("mutex_waits", o.sim.mutex_waits); c.add("atomic_ops", o.sim.atomic_ops); c.add("once_calls", o.sim.once_calls);
    c.add("clock_reads", o.sim.clock_reads); c.add("random_reads", o.sim.random_reads);
    c.add("tasks_" + std::to_string(o.ntasks)); c.add("probe_edge_points_located_by_bisection", g_edge_found);
+   c.add("oracle_byte_image_changed_but_all_getters_equal", g_repr_only_changes);
    c.add("oracle_evaluations_repeated_in_a_fresh_thread", g_fresh_thread_evals); c.add("oracle_evaluations_repeated_on_a_fresh_copy", g_copy_evals); c.add("oracle_operations_with_stale_errno_and_fp_flags_injected", g_stale_injections);
    if (o.discarded) c.add("discarded_unsupported_sync");
    if (o.sim.preempt_in_op > 0 && o.ntasks >= 2) c.add("runs_with_preemption_inside_operation");
